@@ -1,5 +1,5 @@
 //! C39 — quorum helpers (`collect_quorum`, `collect_quorum_with_response`) and `join_responses`.
-use std::collections::{BTreeMap, BTreeSet};
+use std::collections::BTreeSet;
 
 use hydro_lang::live_collections::stream::{ExactlyOnce, NoOrder, Ordering, TotalOrder};
 use hydro_lang::prelude::*;
@@ -486,7 +486,6 @@ pub fn run(rep: &mut Report, thorough: bool, replay: Option<Value>) {
         println!("replay: {} violating executions", v);
         std::process::exit(if v > 0 { 1 } else { 0 });
     }
-    let _ = BTreeMap::<u8, u8>::new();
 }
 
 /// Waits for one joined element on the unordered output; anything else than `want` is recorded
